@@ -244,6 +244,7 @@ func vfDryRun(sc vfScenario) (c2s, s2c int, msg string) {
 	if !run.serverSuccess() || !run.clientSuccess() {
 		return 0, 0, "fault-free dry run of scenario " + sc.Name + " failed: " + run.describe()
 	}
+	vfLastDry.c2s, vfLastDry.s2c = sess.wire("c2s").messages(), sess.wire("s2c").messages()
 	if sess.tunC2S != nil {
 		if n := len(sess.tunC2S.messages()); n > 0 {
 			return n, len(sess.tunS2C.messages()), ""
@@ -263,4 +264,34 @@ func vfPointHash(parts ...any) uint64 {
 	h *= 0xbf58476d1ce4e5b9
 	h ^= h >> 32
 	return h
+}
+
+// vfLastDry: the messages of the most recent dry run (the enumerations use the types to find the points between two files).
+var vfLastDry struct{ c2s, s2c []vfMsg }
+
+// vfBetweenFiles says whether message k of a direction belongs to the hand-over from one file to the next: the MD5 line, the
+// acknowledgement that follows it, or the NAME line of the next file.
+func vfBetweenFiles(dir string, k int) bool {
+	msgs, other := vfLastDry.c2s, vfLastDry.s2c
+	if dir == "s2c" {
+		msgs, other = vfLastDry.s2c, vfLastDry.c2s
+	}
+	if k < 0 || k >= len(msgs) {
+		return false
+	}
+	m := msgs[k]
+	if m.Typ == "MD5" || m.Typ == "NAME" {
+		return true
+	}
+	if m.Typ == "SUCC" {
+		// the acknowledgement of an MD5 line: the latest line of the other direction sent before it is that MD5
+		var last *vfMsg
+		for i := range other {
+			if other[i].At.Before(m.At) {
+				last = &other[i]
+			}
+		}
+		return last != nil && last.Typ == "MD5"
+	}
+	return false
 }
